@@ -344,42 +344,21 @@ pub fn eval(expr: Node) -> Result<Number, Box<dyn error::Error>> {
             let x = eval(*sub_expr)?;
             match x {
                 Number::Integer(n) => Ok(Number::Integer(n)),
-                Number::Float(n) => {
-                    let f = n.floor();
-                    if (f <= (i64::MAX as f64)) && (f >= (i64::MIN as f64)) {
-                        Ok(Number::Integer(n as i64))
-                    } else {
-                        Ok(Number::Float(f))
-                    }
-                }
+                Number::Float(n) => Ok(Number::from(n.floor())),
             }
         }
         Ceil(sub_expr) => {
             let x = eval(*sub_expr)?;
             match x {
                 Number::Integer(n) => Ok(Number::Integer(n)),
-                Number::Float(n) => {
-                    let f = n.ceil();
-                    if (f <= (i64::MAX as f64)) && (f >= (i64::MIN as f64)) {
-                        Ok(Number::Integer(n as i64))
-                    } else {
-                        Ok(Number::Float(f))
-                    }
-                }
+                Number::Float(n) => Ok(Number::from(n.ceil())),
             }
         }
         Round(sub_expr) => {
             let x = eval(*sub_expr)?;
             match x {
                 Number::Integer(n) => Ok(Number::Integer(n)),
-                Number::Float(n) => {
-                    let f = n.round();
-                    if (f <= (i64::MAX as f64)) && (f >= (i64::MIN as f64)) {
-                        Ok(Number::Integer(n as i64))
-                    } else {
-                        Ok(Number::from(f))
-                    }
-                }
+                Number::Float(n) => Ok(Number::from(n.round())),
             }
         }
         Sin(sub_expr) => {
